@@ -112,6 +112,11 @@ class MethodContext(object):
     def copy(self):
         retval = copy(self)
 
+        # every context closes what was registered with it: a shared list
+        # would let an auxiliary context close the files of the primary one
+        # (before its response is sent), which then closes them again.
+        retval.files = list(self.files)
+
         if retval.transport is not None:
             retval.transport.parent = retval
         if retval.inprot_ctx is not None:
